@@ -67,6 +67,8 @@ Definition current_position (t : tracker) : pos :=
 Definition break_required (t : tracker) : bool := match tk_break t with Some _ => true | None => false end.
 Definition ack_break (t : tracker) : tracker := mkTk (tk_pos t) None (tk_repos t) (tk_default t).
 Definition ack_repos (t : tracker) : tracker := mkTk (tk_pos t) (tk_break t) false (tk_default t).
+(* _PositioningTracker.reset(): forget the rows addressed so far, keep the default position (fix #22) *)
+Definition tracker_reset (t : tracker) : tracker := mkTk [] None false (tk_default t).
 
 (* ---- instruction nodes and the node creator ------------------------------------------------- *)
 Inductive ikind : Type := IText | IBreak | IItalOn | IItalOff | IRepos.
@@ -451,7 +453,7 @@ Definition translate_command (s : rstate) (w : Z) (next : option Z) : rstate :=
   else if (w =? w_ru2) || (w =? w_ru3) || (w =? w_ru4) then
     let s := flush_buffer (activate s MRoll) in
     if (match r_err s with Some _ => true | None => false end) then s else with_time s (fun t => set_time s t)
-  else if w =? w_enm then set_buf s creator0
+  else if w =? w_enm then set_tk (set_buf s creator0) (tracker_reset (r_tk s))
   else if w =? w_eoc then
     with_time s (fun t =>
       let s := set_time s t in
